@@ -155,6 +155,10 @@ func (rt *runtime) tryCatchEvaluate(inner func() Value) (tryValue Value, isExcep
 			case ottoError:
 				isException = true
 				tryValue = objectValue(rt.newErrorObjectError(caught))
+			case *Error:
+				// the error of an API call (Value.Call, Run) that a host function hands back by panicking
+				isException = true
+				tryValue = objectValue(rt.newErrorObjectError(caught.ottoError))
 			case Value:
 				isException = true
 				tryValue = caught
